@@ -1093,3 +1093,147 @@ func ruleR037(c *Ctx) {
 		c.Note("parser2.Parser#ast-shape-tests", token.NoPos, "no shape tests on parsed operands")
 	}
 }
+
+// ---------------------------------------------------------------------------
+// R03.9 a consumed postfix opener always builds its node
+
+// ruleR039: in the postfix loop of parseNonOperator every clause that has
+// consumed an opener ('.', '(' or '[') must, on every path that does not
+// return an error, replace the current expression by a node built around it
+// (MapAccess, MethodCall, FunctionCall, ListAccess). A path that builds
+// nothing accepts the brackets silently: a[] would parse like a.
+// Structured must-analysis: an assignment inside a loop body does not count
+// (the loop may run zero times).
+func ruleR039(c *Ctx) {
+	root := c.Pkg("")
+	if root == nil {
+		c.Undecided("package parser2", token.NoPos, "not found")
+		return
+	}
+	info := root.TypesInfo
+	fd := c.FuncDecl(root, "Parser", "parseNonOperator")
+	if fd == nil {
+		c.Undecided("parser2.Parser.parseNonOperator", token.NoPos, "not found")
+		return
+	}
+	var sw *ast.SwitchStmt
+	ast.Inspect(fd.Body, func(x ast.Node) bool {
+		if fs, ok := x.(*ast.ForStmt); ok && sw == nil {
+			for _, s := range fs.Body.List {
+				if t, ok := s.(*ast.SwitchStmt); ok {
+					sw = t
+				}
+			}
+		}
+		return true
+	})
+	if sw == nil {
+		c.Undecided("parser2.Parser.parseNonOperator#postfix-loop", fd.Pos(), "postfix loop not found")
+		return
+	}
+	// the variable holding the current expression: the one returned by the default clause
+	var exprObj types.Object
+	for _, cl := range sw.Body.List {
+		cc := cl.(*ast.CaseClause)
+		if cc.List == nil {
+			for _, s := range cc.Body {
+				if r, ok := s.(*ast.ReturnStmt); ok && len(r.Results) == 2 {
+					if id, ok := ast.Unparen(r.Results[0]).(*ast.Ident); ok {
+						exprObj = info.ObjectOf(id)
+					}
+				}
+			}
+		}
+	}
+	if exprObj == nil {
+		c.Undecided("parser2.Parser.parseNonOperator#postfix-loop", sw.Pos(), "the default clause does not return the current expression")
+		return
+	}
+	isBuild := func(s ast.Stmt) bool {
+		as, ok := s.(*ast.AssignStmt)
+		if !ok || len(as.Lhs) != 1 || len(as.Rhs) != 1 {
+			return false
+		}
+		id, ok := ast.Unparen(as.Lhs[0]).(*ast.Ident)
+		if !ok || info.ObjectOf(id) != exprObj {
+			return false
+		}
+		u, ok := ast.Unparen(as.Rhs[0]).(*ast.UnaryExpr)
+		if !ok || u.Op != token.AND {
+			return false
+		}
+		cl, ok := ast.Unparen(u.X).(*ast.CompositeLit)
+		if !ok {
+			return false
+		}
+		// built around the current expression
+		return containsNode(cl, func(y ast.Node) bool {
+			i2, ok := y.(*ast.Ident)
+			return ok && info.ObjectOf(i2) == exprObj
+		})
+	}
+	// returns: built (on every non returning path), returned (no path falls through)
+	var walk func(stmts []ast.Stmt, built bool) (bool, bool)
+	walk = func(stmts []ast.Stmt, built bool) (bool, bool) {
+		for _, s := range stmts {
+			switch t := s.(type) {
+			case *ast.ReturnStmt:
+				return built, true
+			case *ast.BranchStmt:
+				return built, false
+			case *ast.BlockStmt:
+				b, r := walk(t.List, built)
+				if r {
+					return b, true
+				}
+				built = b
+			case *ast.IfStmt:
+				b1, r1 := walk(t.Body.List, built)
+				b2, r2 := built, false
+				if t.Else != nil {
+					switch e := t.Else.(type) {
+					case *ast.BlockStmt:
+						b2, r2 = walk(e.List, built)
+					case *ast.IfStmt:
+						b2, r2 = walk([]ast.Stmt{e}, built)
+					}
+				}
+				switch {
+				case r1 && r2:
+					return built, true
+				case r1:
+					built = b2
+				case r2:
+					built = b1
+				default:
+					built = b1 && b2
+				}
+			case *ast.ForStmt, *ast.RangeStmt, *ast.SwitchStmt, *ast.TypeSwitchStmt, *ast.SelectStmt:
+				// may run zero times / not understood: does not establish the node
+			default:
+				if isBuild(s) {
+					built = true
+				}
+			}
+		}
+		return built, false
+	}
+	n := 0
+	for _, cl := range sw.Body.List {
+		cc := cl.(*ast.CaseClause)
+		if cc.List == nil {
+			continue
+		}
+		n++
+		key := "parser2.Parser.parseNonOperator#postfix " + nodeStr(c.Fset, cc.List[0])
+		built, returned := walk(cc.Body, false)
+		if returned || built {
+			c.OK(key, cc.Pos(), "every path through the clause that does not return an error builds a node around the current expression")
+		} else {
+			c.Violation(key, cc.Pos(), "there is a path through the clause for %s that consumes the tokens of the postfix form but builds no node around the expression (e.g. the node is created only inside a loop that may run zero times): input like a[] is accepted and silently parsed like a", nodeStr(c.Fset, cc.List[0]))
+		}
+	}
+	if n < 3 {
+		c.Undecided("parser2.Parser.parseNonOperator#postfix-clauses", sw.Pos(), "expected the clauses for '.', '(' and '[', found %d", n)
+	}
+}
